@@ -23,13 +23,13 @@ LONG = 5000
 PROCS = [1, 2, 4, 16]
 COMBS = ["marshal", "unmarshal", "mux", "batcher", "dual", "queue"]
 PATS = {
-    "marshal": ["plain", "big", "slowcons", "slowprod", "yield"],
-    "unmarshal": ["plain", "big", "slowcons", "slowprod", "yield"],
+    "marshal": ["plain", "big", "slowcons", "slowprod", "yield", "stall"],
+    "unmarshal": ["plain", "big", "slowcons", "slowprod", "yield", "stall"],
     "serde": ["plain", "big", "slowcons"],
-    "mux": ["plain", "big", "slowcons", "slowprod", "jitter"],
-    "batcher": ["plain", "burst", "slowcons", "slowprod", "yield"],
-    "dual": ["plain", "big", "slowcons", "slowprod", "yield"],
-    "queue": ["plain", "big", "slowcons", "slowprod", "yield"],
+    "mux": ["plain", "big", "slowcons", "slowprod", "jitter", "stall"],
+    "batcher": ["plain", "burst", "slowcons", "slowprod", "yield", "stall"],
+    "dual": ["plain", "big", "slowcons", "slowprod", "yield", "stall"],
+    "queue": ["plain", "big", "slowcons", "slowprod", "yield", "stall"],
 }
 WS = {  # workers / lanes / batch size
     "marshal": [4, 1, 2, 3], "unmarshal": [4, 1, 2, 3], "serde": [4], "mux": [3, 1, 2],
@@ -43,8 +43,8 @@ def model_runs(tier):
     """(module, constants, liveness?) for the implementation-shaped models."""
     runs = []
     if tier == "quick":
-        runs += [("RoundRobin", dict(W=2, CapIn=1, CapLane=1, CapOut=1, N=7), True),
-                 ("Mux", dict(P=2, CapLane=0, CapOrder=1, CapOut=1, N=5), True),
+        runs += [("RoundRobin", dict(W=3, CapIn=1, CapLane=1, CapOut=1, N=7), True),
+                 ("Mux", dict(P=3, CapLane=0, CapOrder=1, CapOut=1, N=5), True),
                  ("Batcher", dict(Size=2, CapReq=1, CapOut=1, N=7), True),
                  ("Dual", dict(CapReq=1, CapData=1, CapOut=1, MaxRes=2, N=3), True),
                  ("Queue", dict(CapIn=1, CapOut=1, N=7), True)]
@@ -96,8 +96,12 @@ def check_models(ctx, summary):
 
     def one(job):
         module, consts, live = job
-        name = "%s_%s.cfg" % (module, "_".join("%s%d" % kv for kv in consts.items()))
-        res = ctx.tlc("streamcomb", module, name, workers=8, timeout=1200, files={name: model_cfg(module, consts, live)},
+        if ctx.tier == "quick":      # spec/streamcomb/<Module>_quick.cfg holds exactly these constants
+            name, files = module + "_quick.cfg", None
+        else:
+            name = "%s_%s.cfg" % (module, "_".join("%s%d" % kv for kv in consts.items()))
+            files = {name: model_cfg(module, consts, live)}
+        res = ctx.tlc("streamcomb", module, name, workers=8, timeout=1200, files=files,
                       label="model %s %s%s" % (module, consts, " +liveness" if live else ""), count=False)
         with lock:
             ctx.cov["states"] += res.distinct
@@ -118,7 +122,7 @@ def scenarios(ctx):
         s = dict(comb=comb, n=n, w=w, pat=pat, procs=procs, seed=rng.randrange(1, 1 << 30),
                  capin=kw.pop("capin", rng.choice([0, 1, 10])), deadline_ms=20000)
         if comb == "mux":
-            s["lanecap"] = kw.pop("lanecap", rng.choice([0, 0, 2]))
+            s["lanecap"] = kw.pop("lanecap", rng.choice([0, 0, 2, 10]))
             s["lazy"] = kw.pop("lazy", rng.random() < 0.5)
         if comb == "batcher":
             s["timeout_us"] = kw.pop("timeout_us", rng.choice([1, 1, 200, 3000]))
@@ -154,6 +158,10 @@ def scenarios(ctx):
     add("mux", 100, 3, "testmux", 4, lanecap=0, lazy=False)  # TestMux
     for n in ([0, 1, 5, 41, 101] if not thorough else LENGTHS):
         add("serde", n, 4, PATS["serde"][n % 3], PROCS[n % 4])
+    # back-pressure through every buffer, including the multiplexer's order channel (wide lanes)
+    add("mux", LONG, 3, "stall", 4, lanecap=100, lazy=False)
+    for comb in ("marshal", "unmarshal", "batcher", "dual", "queue"):
+        add(comb, 1500, WS[comb][0], "stall", PROCS[len(comb) % 4], capin=10)
     # the production settings of the batcher: timeout of one microsecond
     for n in (1, 9, 10, 11, 101):
         add("batcher", n, 10, "slowprod", PROCS[n % 4], timeout_us=1)
